@@ -77,8 +77,9 @@ Definition s_chstatus (st : chstatus) : string := match st with ChNew => "0" | C
 Definition s_consumer (cfg : config) (cm : consumer) : string :=
   c_tag cm ++ ":" ++ c_queue cm ++ ":" ++ sB (c_noack cm) ++ ":" ++ s_cstatus (c_status cm) ++
   (if cfg_rabbit cfg then ":" ++ s_qos (c_own cm) else "").
-Definition s_unacked (u : unacked) : string :=
-  sN (u_tag u) ++ ":" ++ u_ctag u ++ ":" ++ u_queue u ++ ":" ++ sN (u_msg u).
+Definition mid_of (s : state) (u : N) : N := match get_msg s u with Some m => m_mid m | None => 0%N end.
+Definition s_unacked (s : state) (u : unacked) : string :=
+  sN (u_tag u) ++ ":" ++ u_ctag u ++ ":" ++ u_queue u ++ ":" ++ sN (mid_of s (u_msg u)).
 
 Fixpoint insert_by {A} (key : A -> string) (x : A) (l : list A) : list A :=
   match l with
@@ -92,23 +93,23 @@ Definition sort_by {A} (key : A -> string) (l : list A) : list A := fold_right (
 Fixpoint insert_unacked (x : unacked) (l : list unacked) : list unacked :=
   match l with [] => [x] | y :: t => if N.leb (u_tag x) (u_tag y) then x :: l else y :: insert_unacked x t end.
 
-Definition s_channel (cfg : config) (c : N) (hkv : N * channel) : string :=
+Definition s_channel (cfg : config) (s : state) (c : N) (hkv : N * channel) : string :=
   let '(h, ch) := hkv in
   "ch " ++ sN c ++ "." ++ sN h ++ " st=" ++ s_chstatus (ch_status ch) ++ " flow=" ++ sB (ch_flow ch) ++
   " dtag=" ++ sN (ch_dtag ch) ++ " ctag=" ++ sN (ch_ctag ch) ++ " confirm=" ++ sB (ch_confirm ch) ++
   " cur=" ++ sB (match ch_cur ch with Some _ => true | None => false end) ++
   " qos=" ++ s_qos (ch_qos ch) ++ " cqos=" ++ s_qos (ch_cqos ch) ++
   " consumers=[" ++ sjoin " " (map (s_consumer cfg) (sort_by c_tag (ch_consumers ch))) ++ "]" ++
-  " unacked=[" ++ sjoin " " (map s_unacked (fold_right insert_unacked [] (ch_unacked ch))) ++ "]".
+  " unacked=[" ++ sjoin " " (map (s_unacked s) (fold_right insert_unacked [] (ch_unacked ch))) ++ "]".
 
-Definition s_conn (cfg : config) (ckv : N * conn) : list string :=
+Definition s_conn (cfg : config) (s : state) (ckv : N * conn) : list string :=
   let '(c, cn) := ckv in
   ("conn " ++ sN c ++ " qos=" ++ s_qos (cn_qos cn)) ::
-  map (s_channel cfg c) (fold_right (fun x l => let fix ins l := match l with [] => [x] | y :: t => if N.leb (fst x) (fst y) then x :: l else y :: ins t end in ins l) [] (cn_chans cn)).
+  map (s_channel cfg s c) (fold_right (fun x l => let fix ins l := match l with [] => [x] | y :: t => if N.leb (fst x) (fst y) then x :: l else y :: ins t end in ins l) [] (cn_chans cn)).
 
-Definition s_queue (qkv : string * queue) : string :=
+Definition s_queue (s : state) (qkv : string * queue) : string :=
   let '(qn, qu) := qkv in
-  "queue " ++ qn ++ " ready=[" ++ sjoin " " (map sN (q_ready qu)) ++ "] len=" ++ sZ (q_len qu) ++
+  "queue " ++ qn ++ " ready=[" ++ sjoin " " (map (fun u => sN (mid_of s u)) (q_ready qu)) ++ "] len=" ++ sZ (q_len qu) ++
   " consumers=[" ++ sjoin " " (map (fun x => snd x) (q_consumers qu)) ++ "]" ++
   " active=" ++ sB (q_active qu) ++ " excl=" ++ sB (q_excl qu) ++ " ad=" ++ sB (q_autodel qu) ++ " dur=" ++ sB (q_durable qu) ++
   " owner=" ++ sN (q_owner qu) ++ " cexcl=" ++ sB (q_cexcl qu) ++
@@ -125,8 +126,8 @@ Definition sort_kvN {A} (l : list (N * A)) : list (N * A) :=
   fold_right (fun x l => let fix ins l := match l with [] => [x] | y :: t => if N.leb (fst x) (fst y) then x :: l else y :: ins t end in ins l) [] l.
 
 Definition s_state (cfg : config) (s : state) : list string :=
-  List.app (flat_map (s_conn cfg) (sort_kvN (conns s)))
-  (List.app (map s_queue (sort_by fst (queues s)))
+  List.app (flat_map (s_conn cfg s) (sort_kvN (conns s)))
+  (List.app (map (s_queue s) (sort_by fst (queues s)))
   (List.app (map s_exchange (sort_by fst (exchanges s)))
    ["server m=" ++ sZ (srv_ready s) ++ "/" ++ sZ (srv_unacked s) ++ "/" ++ sZ (srv_total s)])).
 
